@@ -195,7 +195,7 @@ func (fd *Client) UpdateTable(ctx context.Context, input *dynamodb.UpdateTableIn
 	}
 
 	if input.AttributeDefinitions != nil {
-		table.SetAttributeDefinition(mapDynamoToTypesAttributeDefinitionSlice(input.AttributeDefinitions))
+		table.AddAttributeDefinition(mapDynamoToTypesAttributeDefinitionSlice(input.AttributeDefinitions))
 	}
 
 	for _, change := range input.GlobalSecondaryIndexUpdates {
